@@ -88,6 +88,10 @@ def unmangle(s):
 
     s = str(s)
 
+    if "." in s and s.strip("."):
+        # A dotted name: like `mangle`, treat the parts separately.
+        return ".".join(unmangle(x) if x else "" for x in s.split("."))
+
     prefix = ""
     suffix = ""
     m = re.fullmatch(r"(_+)(.*?)(_*)", s, re.DOTALL)
